@@ -1022,3 +1022,27 @@ pub fn similar_rejection_case(rng: &mut Rng) -> Case {
 fn unic_mark(c: char) -> bool {
     matches!(c as u32, 0x0300..=0x036f)
 }
+
+/// Byte sequences of the multi-byte codecs that decode to *more than one* character (Big5: 0x8862, 0x8864, 0x88A3,
+/// 0x88A5 – a letter plus a combining mark), embedded in ordinary Traditional Chinese text in the middle and at both ends:
+/// decoders hand such output to their writer as a string, not character by character
+pub fn big5_two_codepoint_text(rng: &mut Rng) -> Vec<u8> {
+    let base = TEXTS.iter().find(|(n, _)| *n == "tradchinese").map(|x| x.1).unwrap_or("");
+    let chars: Vec<char> = base.chars().collect();
+    let pairs: [[u8; 2]; 4] = [[0x88, 0x62], [0x88, 0x64], [0x88, 0xa3], [0x88, 0xa5]];
+    let mut out = vec![];
+    let n_seg = rng.range(2, 5);
+    if rng.chance(1, 5) {
+        out.extend_from_slice(&pairs[rng.below(4)]);
+    }
+    for k in 0..n_seg {
+        let a = rng.below(chars.len().saturating_sub(25).max(1));
+        let len = rng.range(12, 60).min(chars.len() - a);
+        let seg: String = chars[a..a + len].iter().collect();
+        out.extend(enc_bytes_lossy(&seg, "big5"));
+        if k + 1 < n_seg || rng.chance(1, 4) {
+            out.extend_from_slice(&pairs[rng.below(4)]);
+        }
+    }
+    out
+}
